@@ -6,6 +6,9 @@ REPO="${VERIF_REPO:-/repo}"
 cd "$(dirname "$0")/.."
 TIER="${1:-quick}"
 OUT=seeded/RESULTS.md
+# SHARD=i/n : only every n-th seed starting at i, results to seeded/RESULTS.shard<i>.md (merged by tools/merge_shards.py)
+SH_I=""; SH_N=1
+if [ -n "${SHARD:-}" ]; then SH_I="${SHARD%%/*}"; SH_N="${SHARD##*/}"; OUT="seeded/RESULTS.shard$SH_I.md"; fi
 git -C "$REPO" diff --quiet || { echo "/repo is dirty"; exit 2; }
 {
 echo "# Seeded changes versus the checks ($TIER tier, VERIF_SEED=${VERIF_SEED:-1})"
@@ -17,8 +20,10 @@ echo "| seed | property | result | first failing oracle clause | cases until fou
 echo "|---|---|---|---|---|"
 } > "$OUT"
 missed=0
+idx=-1
 for d in seeded/*/; do
   id="$(basename "$d")"; [ -f "$d/patch.diff" ] || continue
+  idx=$((idx+1)); if [ -n "$SH_I" ] && [ $((idx % SH_N)) -ne "$SH_I" ]; then continue; fi
   prop="${id%%-*}"; prop="${prop%%b}"
   git -C "$REPO" apply "$(readlink -f "$d/patch.diff")" || { echo "| $id | $prop | PATCH DOES NOT APPLY | | |" >> "$OUT"; continue; }
   out="$(./check "$prop" "$TIER" 2>&1)"; rc=$?
